@@ -24,6 +24,7 @@ struct BoxOpts {
   bool all_strides = false;    // {N, N+1} or {N, N+1, N+3, 2N+5}
   std::vector<CpuCfg> cf = {CFG_NATIVE, CFG_GENERIC};
   std::vector<uint64_t> ks = {1, 10, 62};
+  bool inplace = false;        // also the same-pointer calls: res==a, res==b, res==a==b, a==b (element-wise ops), res==a (normalisation), res==a_dft (inverse DFTs)
 };
 
 // a second, sparse layer at large ring dimensions (a change keyed to a size threshold above the small box is still met)
@@ -77,6 +78,12 @@ inline void run_group(const ApiGroup& G, const BoxOpts& o, const std::function<v
           VecShape s; s.N = N; s.rs = rs; s.as = as; s.bs = bs; s.rsl = rsl; s.asl = asl; s.bsl = bsl; s.p = p;
           ApiCase c = gen_vecop(mod, op, s, mtname(t), cfg);
           fn(c);
+          if (o.inplace) for (int al : {AL_RES_A, AL_RES_B, AL_RES_A_B, AL_A_B}) {
+            VecShape sa = canon_shape(op, s); sa.alias = al;
+            if (!alias_ok(op, sa)) continue;
+            ApiCase ca = gen_vecop(mod, op, sa, mtname(t), cfg);
+            fn(ca);
+          }
         }
       break;
     }
@@ -88,6 +95,7 @@ inline void run_group(const ApiGroup& G, const BoxOpts& o, const std::function<v
               NormShape s; s.N = N; s.k = k; s.rs = rs; s.rsl = rsl; s.as = as; s.asl = asl; s.variant = G.sub; s.dataset = (int)((rs + as) & 1);
               ApiCase c = gen_normalize(mod, s, cfg);
               fn(c);
+              if (o.inplace && rsl == asl) { s.alias = 1; ApiCase ca = gen_normalize(mod, s, cfg); fn(ca); }
             }
           } else {
             for (uint64_t end = 0; end <= 5; ++end) for (uint64_t begin = 0; begin <= end; ++begin) for (uint64_t step = 1; step <= 3; ++step) {
@@ -105,6 +113,7 @@ inline void run_group(const ApiGroup& G, const BoxOpts& o, const std::function<v
           DftShape s; s.N = N; s.rs = rs; s.as = as; s.asl = asl; s.variant = G.sub;
           ApiCase c = gen_dft(mod, t, s, cfg);
           fn(c);
+          if (o.inplace && G.sub != 0) { s.alias = 1; ApiCase ca = gen_dft(mod, t, s, cfg); fn(ca); }
         }
       break;
     }
